@@ -70,6 +70,12 @@ THEOREMS = [
     "Lena.C09.binIndex_on_edge", "Lena.C09.binIndex_just_below_edge", "Lena.C09.hist_fill_just_below_edge",
     "Lena.C09.vmc_sums_compute_spec", "Lena.C09.vmcOver_reset_fresh", "Lena.C09.vmc_sums_reset_fresh",
     "Lena.C09.vmc_is_vmcOver",
+    # seed round I: the counter's name is ONE key for every string (dots, blanks, empty, a key of the context), on contexts
+    # with nested dictionaries; the string form of update_recursively (a path) is not that update for any dotted name
+    "Lena.C09.count_compute_name_one_key", "Lena.C09.nctx_set_own_key_only", "Lena.C09.nctx_setPath_dotted",
+    "Lena.C09.nctx_setPath_not_update",
+    # seed C09-G: Vectorize yields as many tuples as its longest component yields values, every value at its place
+    "Lena.C09.zipLongest_length_ge", "Lena.C09.zipLongest_keeps_all",
 ]
 # audited, but not counted as proof obligations of the property: restatements of the model (transcription checks:
 # the model's reset of these elements is a constant, so reset-equals-fresh is one `rfl` - the assurance for them is the
@@ -88,13 +94,14 @@ AUX_THEOREMS = [
     "Lena.C09.bisect_ok", "Lena.C09.histnd_fillAll_C06", "Lena.C09.histnd_fill_cell",
     "Lena.C09.tsum_fillAll", "Lena.C09.tsum_erase", "Lena.C09.tsum_reset_fresh", "Lena.C09.tsum_keep_type_reset_not_fresh",
     "Lena.C09.vmcOver_fillAll", "Lena.C09.dataSum_bareSq", "Lena.C09.ctxAfter_bareSq", "Lena.C09.vmc_half_reset_not_fresh",
+    "Lena.C09.NCtx.lookup_set", "Lena.C09.Ctx.toN_set", "Lena.C09.nctx_setPath_single", "Lena.C09.foldl_max_length_ge",
 ]
 TRUSTED = [
     "Lean 4.33.0 kernel; axioms limited to propext, Classical.choice, Quot.sound (audited by #print axioms on every run)",
     "hand transcription of Count (fill, compute, reset, run, fill_into), Sum, DSum, Mean (sum_seq None / Sum() / DSum() / any "
     "FillCompute sum sequence with numeric results), VarianceMeanCount (Sum() sums; any two sum elements - vmcOverM), Sum over "
     "numbers that carry their Python type (tsumM), Vectorize (copies of one component or a "
-    "list of Sum/Count components, bare or FillComputeSeq components, construct), StoreFilled, GroupBy, Histogram (own "
+    "list of Sum/Count/StoreFilled(False) components, bare or FillComputeSeq components, construct), StoreFilled, GroupBy, Histogram (own "
     "one-dimensional model, and any dimension on the shared model LenaModel/Model/C06.lean) and Graph (__init__, fill, "
     "compute, reset, _update) into LenaModel/Model/C09.lean, validated by this correspondence check on the yielded "
     "values, exceptions and documented public state only (no private attribute is read)",
@@ -127,7 +134,13 @@ ASSUMPTIONS = [
     "contexts are equal as dictionaries: the insertion order of the keys (varied by the generator at every nesting level) "
     "is not part of a context - two values whose contexts differ only in it belong to one GroupBy group",
     "contexts are flat dictionaries whose leaves are opaque to the accumulators (nested dictionaries are opaque leaves; "
-    "update_recursively on nested contexts of a sum sequence is checked by the oracle only)",
+    "update_recursively on nested contexts of a sum sequence is checked by the oracle only); the nested model NCtx (set, "
+    "setPath = the string form of update_recursively) is executed on the contexts of every Count case and compared with "
+    "dict.update / lena.context.update_recursively",
+    "an element's name option (Count.name) is any string and the documented key {self.name: self.count} is that string "
+    "itself: a dot does not make it a path, it may be empty, contain blanks or braces, and may equal a key of the filled "
+    "context (which it then replaces, a nested dictionary as a whole) or begin with one (which it leaves alone); names "
+    "that are not strings are outside the generated domain",
     "reset() equals a NEW element means: constructed with the same configuration and the documented start that the reset "
     "docstrings name - Count/Sum/DSum: zero, not the initial count/total; Graph: no points, empty context, the scale "
     "argument - not the points/context given to Graph(points=, context=) (graph_from_reset_not_same_args is the proved "
@@ -155,11 +168,12 @@ ASSUMPTIONS = [
     "whose reset belongs to a fill/request protocol: FillRequest, FillRequestSeq, Zip (fill/request form), NumpyHistogram "
     "(numpy absent), the private _GroupBy - the property's histories are fill/compute/reset",
 ]
-RULE = ("per element configuration (94 of them: Count, Sum[int and float starts, numbers of both Python types and integers "
+RULE = ("per element configuration (104 of them: Count[names that are any string: with dots, blanks, braces, empty, equal to / a prefix of keys of the filled contexts], Sum[int and float starts, numbers of both Python types and integers "
         "beyond 2**53 around a reset], DSum, Mean[None|Sum()|DSum()|Sum(start)|Count()|StoreFilled(False)|"
         "FillCompute(Sum()) without reset], VarianceMeanCount[default or explicit sums: Sum(), Sum(start), a sum without reset, "
         "in either position], Vectorize[Sum|Count|Mean|Mean(DSum())|DSum|"
-        "VarianceMeanCount|StoreFilled, bare or wrapped in FillComputeSeq(lambda x: k*x, .), dim 1..3, list form, short and long "
+        "VarianceMeanCount|StoreFilled, bare or wrapped in FillComputeSeq(lambda x: k*x, .), dim 1..3, list form, lists of "
+        "different components (Sum, Count, StoreFilled(False)) that yield different numbers of values, short and long "
         "data vectors, construct None|variadic|namedtuple of right and wrong size], StoreFilled, GroupBy[default|group_by|merge, "
         "several keys, nested keys, one context written in different insertion orders, keys that cannot be rendered], "
         "Histogram[1-d, 2-d, 3-d, nested single axis, initial bins, make_bins, initial_value, floats one ulp beside an edge, "
@@ -167,13 +181,16 @@ RULE = ("per element configuration (94 of them: Count, Sum[int and float starts,
         "filled and reset through FillRequest / FillRequestSeq / FillCompute adapters): EVERY history of up to 4 calls (quick: 3 for the "
         "Vectorize/Mean/VarianceMeanCount families; thorough: up to 5 for the single-accumulator families) over {fill(v1), "
         "fill(v2), compute, reset}; Count with every history of up to 3 (thorough 4) calls over {run(2 values), run(()), "
-        "run(1 value), fill, fill_into(2 values), compute, reset}; construction argument checks of "
+        "run(1 value), fill, fill_into(2 values), compute, reset}, for the names count, n, events.selected and the empty "
+        "string (contexts holding the name and its first component); construction argument checks of "
         "Histogram, Vectorize, GroupBy; a regression corpus; plus seeded random histories fill* (compute|reset|fill)* of up to 12 "
         "calls (quick 12 000, thorough 170 000) with ints, exactly summable floats of mixed magnitude "
         "(multiples of 2**-k, k up to 20), stretches of integers up to 1e30 while the running total is an int (Sum, Mean, "
         "VarianceMeanCount: after construction and after every reset), Sum also with floats whose additions round (oracle only, "
         "forward error bound), Histogram coordinates on an edge, one unit, a few ulps and a relative 1e-9..1e-13 beside it (all "
-        "dimensions), (data, context) pairs with flat and nested contexts in varying key orders; DSum, Mean(DSum()) and their "
+        "dimensions), (data, context) pairs with flat and nested contexts in varying key orders and with keys that are "
+        "not identifiers (dotted, blank, empty, braces), Count / Vectorize(Count) / Mean(Count) with names from the same "
+        "vocabulary; DSum, Mean(DSum()) and their "
         "Vectorize with arbitrary floats (denormals to 1e308, cancelling pairs, huge ints).  After every compute() the yielded "
         "contexts and groups are changed in place (what downstream elements do).  Every case also sends the "
         "specification vocabulary of the theorems (Model/C09Spec.lean) to the driver and compares it with Python references.  "
@@ -375,7 +392,8 @@ def _vmc_starts(spec, zero):
 def _inner_of(spec, i):
     """the configuration of component i of a Vectorize"""
     if spec.get("het"):
-        return {"sum": {"k": "sum", "total0": 0}, "count": {"k": "count", "name": "count", "count0": 0}}[spec["het"][i]]
+        return {"sum": {"k": "sum", "total0": 0}, "count": {"k": "count", "name": "count", "count0": 0},
+                "store": {"k": "store", "group": False}}[spec["het"][i]]      # yields one value per fill
     return spec["inner"]
 
 
@@ -750,18 +768,52 @@ def _main_requests(case):
     return [{"el": el, "ops": ops}]
 
 
+def _nctx_enc(c, codes):
+    """a case context as nested dictionaries with int / None leaves (any other leaf: an opaque int)"""
+    out = {}
+    for k, v in (c or {}).items():
+        if isinstance(v, dict) and "__set__" not in v:
+            out[k] = _nctx_enc(v, codes)
+        elif v is None or (isinstance(v, int) and not isinstance(v, bool)):
+            out[k] = v
+        else:
+            out[k] = codes.setdefault(jdump(v), 2 * 10 ** 9 + len(codes))
+    return out
+
+
+def _nset_requests(case, tab):
+    """Model/C09.lean NCtx: `c.update({name: v})`, `update_recursively(c, name, v)` and the flat `Ctx.set` of the Count
+    model on the contexts of the case, for the counter's name and one more name"""
+    vals = []
+    for op in case["ops"]:
+        vals.extend([op[1]] if op[0] in ("f", "fi") else (op[1] if op[0] == "run" else []))
+    codes, reqs, seen = {}, [], set()
+    for v in vals:
+        c = _nctx_enc(v.get("c"), codes)
+        if jdump(c) in seen or len(seen) >= 3:
+            continue
+        seen.add(jdump(c))
+        for name in (case["el"]["name"], _NAMES[(len(jdump(c)) + len(seen)) % len(_NAMES)]):
+            reqs.append({"spec": "nset", "c": c, "name": name, "v": len(reqs) + 1, "flat": _m_ctx(v.get("c") or {}, tab)})
+    return reqs
+
+
 def _spec_requests(case):
     """requests that execute the specification vocabulary of the theorems (Model/C09Spec.lean) on the values of the case;
     _spec_check compares every answer with an independent Python computation"""
     spec, sh = case["el"], case.get("sh", 0)
     k = spec["k"]
     fills = [op[1] for op in case["ops"] if op[0] == "f"][:6]
+    tab = _leaf_table(case)
+    if k == "countrun":
+        return _nset_requests(case, tab)
     if not fills:
         return []
-    tab = _leaf_table(case)
     try:
         if k in ("sum", "vmc", "store", "count") or (k == "mean" and spec["seq"] != "dsum"):
             reqs = [{"spec": "stats", "vs": [{"d": _scaled(v["d"], sh), "c": _m_ctx(v.get("c"), tab)} for v in fills]}]
+            if k == "count":     # the counter's name as ONE key, on contexts with nested dictionaries
+                reqs.extend(_nset_requests(case, tab))
             if k == "sum":       # the vocabulary of the typed Sum theorems
                 reqs.append({"spec": "tstats", "vs": [{"d": [_scaled(v["d"], sh), isinstance(_num(v["d"]), float)],
                                                        "c": _m_ctx(v.get("c"), tab)} for v in fills]})
@@ -827,6 +879,18 @@ def _spec_check(case, req, rep):
         vs = req["vs"]
         want = {"numSum": sum(v["d"][0] for v in vs), "anyFloat": any(v["d"][1] for v in vs),
                 "erased": [dict({"d": v["d"][0]}, **({"c": v["c"]} if v["c"] is not None else {})) for v in vs]}
+    elif kind == "nset":
+        # dict.update itself; lena.context.update_recursively (the function NCtx.setPath transcribes; Count does not use it)
+        import lena.context
+        c, name, v = req["c"], req["name"], req["v"]
+        w_set = copy.deepcopy(c)
+        w_set.update({name: v})
+        w_path = copy.deepcopy(c)
+        try:
+            lena.context.update_recursively(w_path, name, v)
+        except Exception as e:
+            w_path = {"e": exc_name(e)}
+        want = {"set": w_set, "path": w_path, "parts": name.split("."), "flat": dict(req["flat"], **{name: v})}
     elif kind == "keys":
         ks = req["ks"]
         want = {"firstKeys": list(dict.fromkeys(ks)), "lookup": [i for i, k in enumerate(ks) if k == req["probe"]]}
@@ -2086,6 +2150,11 @@ def _specs_small():
                 [v([1, 2], {"a": 1}), v([3, 5])]))
     out.append(({"k": "vec", "inner": inners[0], "list": True, "het": ["count", "sum", "sum"], "nseq": 3, "dim": None,
                  "construct": "variadic"}, 0, [v([1, 2, 4], {"a": 1}), v([3, 5])]))
+    # components that yield different numbers of values: "the longest output is yielded (the others are padded with None)"
+    out.append(({"k": "vec", "inner": inners[0], "list": True, "het": ["sum", "store"], "nseq": 2, "dim": None}, 0,
+                [v([1, 2], {"a": 1}), v([3, 5])]))
+    out.append(({"k": "vec", "inner": inners[0], "list": True, "het": ["store", "count", "store"], "nseq": 3, "dim": None,
+                 "construct": 3}, 0, [v([1, 2, 4], {"a": 1}), v([3, 5, 6])]))
     out.append(({"k": "vec", "inner": {"k": "vec2", "dim": 2}, "list": False, "dim": 2}, 0,
                 [v([[1, 2], [3, 4]], {"a": 1}), v([[5, 6], [7]])]))
     out.append(({"k": "vec", "inner": inners[0], "list": False, "dim": -2}, 0, [v([1, 2], {"a": 1}), v([3])]))
@@ -2363,7 +2432,7 @@ def _rand_case0(rng, maxlen):
         r0 = rng.random()
         if r0 < 0.08:
             spec = {"k": "vec", "inner": {"k": "sum", "total0": 0}, "list": True, "dim": None,
-                    "het": [rng.choice(["sum", "count"]) for _ in range(rng.randint(1, 3))]}
+                    "het": [rng.choice(["sum", "count", "store"]) for _ in range(rng.randint(1, 3))]}
             spec["nseq"] = len(spec["het"])
         elif r0 < 0.14:
             spec = {"k": "vec", "inner": {"k": "vec2", "dim": rng.randint(1, 2)}, "list": False, "dim": rng.randint(1, 2)}
@@ -2439,7 +2508,7 @@ LEVEL_TEXT = ("Lean 4 theorems about transcribed state machines (init, fill, com
               "DSum, Mean, VarianceMeanCount, Vectorize, StoreFilled, GroupBy, Histogram (any dimension, on C06's model) and Graph, "
               "for all fill sequences and all histories (no bound): the documented aggregate after any history of fills and "
               "computes, and observational equality with a new element after reset.  The models are tied to /repo by a "
-              "correspondence check over every history of up to 3-5 calls on 94 small configurations plus seeded random "
+              "correspondence check over every history of up to 3-5 calls on 104 small configurations plus seeded random "
               "histories of up to 12 calls, and a direct oracle (exact Fraction arithmetic, fresh-element replay after every "
               "reset, yielded contexts and groups changed in place after every compute) on the real code.")
 LEVEL_NOTE = ("Trusted: Lean kernel (+ propext, Classical.choice, Quot.sound), the hand transcription validated by the "
